@@ -171,6 +171,32 @@ def r053(model, rep, ck):
             v = assigns[v.id]
         ok2 = any(x is c for x in ast.walk(v))
     rep.ob('R05.3', fk, 'stored tool pose is the FKinSpace result', ok2, 'the pose FK stores is not the product-of-exponentials result')
+    # the clamp itself: theta[where(theta < mins)] = mins[where(theta < mins)], same for > maxs; returns theta
+    tp = arm.methods.get('thetaProtector')
+    if tp is None:
+        raise AnalysisError('anchor vanished: Arm.thetaProtector')
+    th = tp.params[1]
+    stores = [n for n in walk_own(tp.node) if isinstance(n, ast.Assign) and isinstance(n.targets[0], ast.Subscript) and src(n.targets[0].value) == th]
+    seen_bounds = set()
+    for n in stores:
+        tsel = src(n.targets[0].slice).replace(' ', '')
+        v = n.value
+        ok = False
+        which = None
+        if isinstance(v, ast.Subscript):
+            vsel = src(v.slice).replace(' ', '')
+            bound = src(v.value)
+            for op, fld in (('<', 'self.joint_mins'), ('>', 'self.joint_maxs')):
+                cond = 'np.where(%s%s%s[0:theta_len])' % (th, op, fld)
+                if tsel == cond:
+                    which = fld
+                    ok = vsel == cond and bound == fld
+        if which:
+            seen_bounds.add(which)
+        rep.ob('R05.3', tp, src(n)[:90], ok, 'clamp statement does not replace exactly the out-of-range joints by the bound they violate', line=n.lineno)
+    rets = [n for n in walk_own(tp.node) if isinstance(n, ast.Return)]
+    rep.ob('R05.3', tp, 'both limits clamped, clamped vector returned', seen_bounds == {'self.joint_mins', 'self.joint_maxs'} and len(rets) == 1 and src(rets[0].value) == th,
+           'clamp covers %s and returns %s' % (sorted(seen_bounds), src(rets[0].value) if rets else '?'))
     for name in ('FKJoint', 'FKLink'):
         fi = arm.methods.get(name)
         if fi is None:
